@@ -75,7 +75,7 @@ Lemma chassis_table : forallb (chk_read "get_chassis_status" [] (mkReq 0 1 0 [])
 Proof. vm_cast_no_check (eq_refl true). Qed.
 
 (* ---- watchdog: [use; actions; pre-timeout interval; expiration flags; initial lsb msb; present lsb msb] ---- *)
-Definition wd_dom : list (list N) := around [0; 1]%nat [0; 0; 0; 0; 0; 0; 0; 0] ++ around [0; 1; 4; 7]%nat [255; 255; 255; 255; 255; 255; 255; 255].
+Definition wd_dom : list (list N) := around [0; 1]%nat [0; 0; 0; 0; 0; 0; 0; 0] ++ around [4; 7]%nat [255; 255; 255; 255; 255; 255; 255; 255].
 Definition spec_wd (d : list N) : res pv :=
   Ok (PObj "Watchdog" [
     ("timer_use", pi (at_ d 0 mod 8)); ("dont_stop", PNone); ("is_running", pb (at_ d 0) 6); ("dont_log", pb (at_ d 0) 7);
@@ -159,8 +159,8 @@ Definition led_shape (d : list N) : bool :=
   Nat.eqb (length d) (5 + (if (bit st 1 =? 1) || (bit st 2 =? 1) then 3 else 0) + (if bit st 2 =? 1 then 1 else 0)).
 Definition led_dom : list (list N) :=
   filter led_shape (around [1; 2; 3]%nat [0; 1; 0; 0; 1] ++ around [1; 2; 5; 6]%nat [0; 3; 0xff; 0; 2; 7; 9; 3]
-                    ++ around [1; 2; 3; 5; 8]%nat [0; 0xff; 249; 249; 255; 1; 255; 255; 255]
-                    ++ around [1; 5]%nat [0; 5; 0xff; 0; 1; 3; 4; 5; 6]).
+                    ++ around [1; 3; 5]%nat [0; 0xff; 249; 249; 255; 1; 255; 255; 255]
+                    ++ around [] [0; 5; 0xff; 0; 1; 3; 4; 5; 6]).
 Definition led_args := [arg "fru_id" 1; arg "led_id" 2].
 Lemma led_read_table : forallb (chk_read "get_led_state" led_args (mkReq 44 8 0 [0; 1; 2]) spec_led) led_dom = true.
 Proof. vm_cast_no_check (eq_refl true). Qed.
